@@ -41,6 +41,37 @@ def inplace_attrs(cls):
     return out
 
 
+def copy_by_interpretation(repo, chk, cls, cp, mut):
+    """copy() interpreted on a symbolic instance: the copy owns its mutable tables, and setting a leaf on the copy
+    (what data_replace does) leaves the original untouched.  Returns False if the class cannot be run."""
+    from ..sym import SelfObj, Translator, Unmodelled
+
+    keys = {c.key for c in repo.mod(DATA).classes.values()}
+    so = SelfObj(cls, {"f": "F", "x": "X", "args": (), "kwargs": {}, "extra": {"w": "W0"}, "batch_size": None, "cached_batch": {}, "cached_file": "file", "name": "n", "prefetch": -1})
+    tr = Translator(repo, hooks={"construct": keys, "allow_attr_store": True, "builtin.isinstance": lambda tr_, a_, k_, n_: False}, max_depth=4)
+    try:
+        ret = tr.call_fn(cp, [], {}, self_obj=so)
+        if not isinstance(ret, SelfObj):
+            return False
+        shared = [a for a in sorted(mut) if isinstance(so.attrs.get(a), (dict, list)) and ret.attrs.get(a) is so.attrs.get(a)]
+        lost = [a for a in ("extra",) if a in mut and ret.attrs.get(a) != {"w": "W0"}]
+        setter = cls.lookup("__setitem__")
+        changed = False
+        if setter is not None:
+            tr.call_fn(setter, ["w", "W1"], {}, self_obj=ret)
+            changed = so.attrs.get("extra") != {"w": "W0"}
+    except Unmodelled as e:
+        chk.info("L4-copy: %s.copy not interpretable (%s); statement-level rule used" % (cls.name, e))
+        return False
+    ok = not shared and not lost and not changed
+    chk.instance("L4-copy", "%s.copy interpreted: in-place-mutated attributes %s are the copy's own objects, the leaves are carried over, and copy['w'] = W1 leaves the original at W0: %s" % (cls.name, sorted(mut), ok))
+    if shared or changed:
+        chk.violation("L4-copy", cp.key, "alias:%s" % ",".join(shared or ["extra"]), "copy() hands the original's table(s) %s to the copy: setting a leaf on the copy (data_replace on lazy data) changes the original sample (original leaf after copy['w'] = W1: %s)" % (shared or ["extra"], so.attrs.get("extra")), file=DATA, line=cp.lineno)
+    elif lost:
+        chk.violation("L4-copy", cp.key, "lost:%s" % ",".join(lost), "copy() does not carry the user-set leaves over: the copy's table is %r" % (ret.attrs.get("extra"),), file=DATA, line=cp.lineno)
+    return True
+
+
 def check_copy_isolation(repo, chk):
     chk.rule("L4-copy", "copy() of a lazy-data class gives the copy its own instance of every attribute the class mutates in place (never the bare self.<attr>): data_replace on the copy cannot change the original")
     mod = repo.mod(DATA)
@@ -50,6 +81,10 @@ def check_copy_isolation(repo, chk):
         if cp is None:
             continue
         mut = inplace_attrs(cls)
+        decided = copy_by_interpretation(repo, chk, cls, cp, mut)
+        if decided:
+            n += len(mut)
+            continue
         # name of the new object: the returned name
         rets = [r for r in walk_local(cp.node) if isinstance(r, ast.Return) and r.value is not None]
         if len(rets) != 1 or not isinstance(rets[0].value, ast.Name):
